@@ -174,6 +174,10 @@ def opTag : Op → String
 
 def runCase (inp obs : String) : CaseResult :=
   match splitOn inp '|' with
+  | ["K", _, _] =>
+    -- the constant the model is instantiated with must be the code's MaxSmallMap
+    let m := toString maxSmallMap
+    { model := m, agree := m == obs, stmtModel := true, stmtImpl := true, tags := ["MaxSmallMap"], nontrivial := false }
   | [mode, keys, ops] =>
     match (if keys = "" then some [] else (splitOn keys ';').mapM Value.ofString),
           (if ops = "" then some [] else (splitOn ops ';').mapM parseOp), parseObs obs with
